@@ -168,3 +168,22 @@ def bounded_refute(ob: Obligation, bound: int, timeout_ms: int) -> bool:
     except z3.Z3Exception:
         pass
     return False
+
+
+def hinted_refute(ob: Obligation, hint, timeout_ms: int) -> bool:
+    """search a counter-model of the obligation inside the sub-class of inputs described by `hint`"""
+    s = z3.Solver()
+    s.set('timeout', timeout_ms)
+    for h in ob.hyps:
+        s.add(h)
+    s.add(z3.Not(ob.goal))
+    s.add(hint)
+    t0 = time.time()
+    try:
+        if s.check() == z3.sat:
+            ob.model = _model_to_dict(s.model())
+            ob.time_s = time.time() - t0
+            return True
+    except z3.Z3Exception:
+        pass
+    return False
